@@ -63,6 +63,10 @@ def mk_check(c: Dict[str, Any], consts: List[Any], pa):
         return pa.Check.in_range(a, b)
     if k == "in_range_open":
         return pa.Check.in_range(a, b, include_min=False, include_max=False)
+    if k == "in_range_lo":
+        return pa.Check.in_range(a, b, include_min=False)
+    if k == "in_range_hi":
+        return pa.Check.in_range(a, b, include_max=False)
     if k == "isin":
         return pa.Check.isin([a, b])
     if k == "notin":
